@@ -47,10 +47,7 @@ class Timeslot(WithObservers):
 
     def process_burst(self, dmrdata: Burst) -> Burst:
         self.last_packet_received = time()
-        if (
-            not dmrdata.is_voice_superframe_start
-            or dmrdata.sync_or_embedded_signalling == SyncPatterns.Reserved
-        ):
+        if dmrdata.has_emb or dmrdata.has_slot_type:
             # Voice burst with SYNC (MS/BS Sourced, TDMA TS1/2, Reserved) do not carry CC information
             self.colour_code = dmrdata.colour_code
 
